@@ -23,7 +23,7 @@ func init() {
 		Rules: []RuleDef{
 			{ID: "C15.R1", Min: 1, Doc: "kind of the argument of GetDestinationIndex = NAME", Run: c15r1},
 			{ID: "C15.R2", Min: 3, Doc: "ring and destination list agree: in every function that builds a consistentHashingConfig the hasher is NewConsistentHasher(d) with d the stored dests; in updateDestination the extender call comes after Destination.Update", Run: c15r2},
-			{ID: "C15.R3", Min: 5, Doc: "overrides: every exported baseRoute method that passes baseConfigExtender is redeclared on *ConsistentHashing passing consistentHashingConfigExtender", Run: c15r3},
+			{ID: "C15.R3", Min: 5, Doc: "overrides: every exported baseRoute method that stores a configuration (directly or through helpers) is redeclared on *ConsistentHashing (that the override rebuilds the ring is C15.R2's path rule)", Run: c15r3},
 			{ID: "C15.R4", Min: 4, Doc: "ring construction constants: replica count 100; MD5 first two bytes, binary.BigEndian; key pieces; truth table of hashRing.Less against the lexicographic order (Position, Hostname, Instance)", Run: c15r4},
 			{ID: "C15.R6", Min: 1, Doc: "address splitting: an address with exactly two ':' is split into host:port (first two components joined by ':') and instance (third component); the ring key uses the host part before the first ':'", Run: c15r6},
 			{ID: "C15.R7", Min: 2, Doc: "the configured instance survives reconnects: the relay loop re-dials with the stored, instance-less Destination.Addr, so outside the constructor every store into Destination.Instance takes the instance of the same addrInstanceSplit call as the Addr stored with it, and is controlled by the edge on which the split address differs from the current Destination.Addr (a reconnect to the unchanged address must not touch it)", Run: c15r7},
@@ -142,52 +142,150 @@ func c15r2(c *Check) {
 	if n < 2 {
 		anchorFail("fewer than two construction sites of consistentHashingConfig found")
 	}
-	// updateDestination: Update before rebuilding
-	ud := c.P.Func("route", "*baseRoute", "updateDestination")
-	var upd, ext ssa.Instruction
-	allInstrs(ud, func(in ssa.Instruction) {
-		if isCallNamed(in, "(*"+modPath+"/destination.Destination).Update") {
-			upd = in
+	// every configuration change of a consistentHashing route rebuilds the ring, after the change it reflects
+	c15r2paths(c)
+}
+
+// c15r2paths enumerates the paths of every method declared on *ConsistentHashing (expanding the
+// functions and closures of the route package it runs, including closures handed to a publishing
+// helper) and requires of every path that stores a configuration: the ring is built before the
+// Store; after any Destination.Update on the path; and from the new destination list when the
+// path builds one with append.
+func c15r2paths(c *Check) {
+	ch := c.P.Named("route", "ConsistentHashing")
+	nNew := modPath + "/route.NewConsistentHasher"
+	routePkg := c.P.Pkg("route").Types
+	destsOf := func(v ssa.Value, resolve func(ssa.Value) ssa.Value) ssa.Value {
+		// v: a baseConfig value (load of a local literal): the value stored into its dests field
+		v = resolve(v)
+		u, ok := v.(*ssa.UnOp)
+		if !ok {
+			return nil
 		}
-		if call, ok := in.(*ssa.Call); ok && !call.Call.IsInvoke() && call.Call.StaticCallee() == nil {
-			if p, ok := call.Call.Value.(*ssa.Parameter); ok && p.Name() == "extendConfig" {
-				ext = in
-			}
+		al, ok := u.X.(*ssa.Alloc)
+		if !ok {
+			return nil
 		}
-	})
-	c.Judge(upd != nil && ext != nil && instrDominates(upd, ext), "route.updateDestination rebuilds the ring after the destination changed", c.AtFn(ud), "Destination.Update precedes extendConfig", "the ring is rebuilt before the destination's address is updated: the stored ring reflects the old host/instance and routing depends on history instead of the configured destinations")
-	// addDestination / delDestination: extender applied to the new list
-	for _, name := range []string{"addDestination", "delDestination"} {
-		fn := c.P.Func("route", "*baseRoute", name)
-		okNew := false
-		allInstrs(fn, func(in ssa.Instruction) {
-			call, ok := in.(*ssa.Call)
-			if !ok || call.Call.IsInvoke() || call.Call.StaticCallee() != nil {
-				return
-			}
-			if p, ok := call.Call.Value.(*ssa.Parameter); !ok || p.Name() != "extendConfig" {
-				return
-			}
-			// argument: baseConfig literal whose dests is the append result
-			if u, ok := call.Call.Args[0].(*ssa.UnOp); ok {
-				if al, ok := u.X.(*ssa.Alloc); ok {
-					for _, r := range *al.Referrers() {
-						if fa, ok := r.(*ssa.FieldAddr); ok && fieldOfAddr(fa).Name() == "dests" {
-							for _, rr := range *fa.Referrers() {
-								if st, ok := rr.(*ssa.Store); ok {
-									if ac, ok := st.Val.(*ssa.Call); ok {
-										if b, ok := ac.Call.Value.(*ssa.Builtin); ok && b.Name() == "append" {
-											okNew = true
-										}
-									}
-								}
-							}
-						}
+		var out ssa.Value
+		for _, r := range *al.Referrers() {
+			if fa, ok := r.(*ssa.FieldAddr); ok && fieldOfAddr(fa).Name() == "dests" {
+				for _, rr := range *fa.Referrers() {
+					if st, ok := rr.(*ssa.Store); ok {
+						out = resolve(st.Val)
 					}
 				}
 			}
-		})
-		c.Judge(okNew, "route."+name+" extends the configuration with the new destination list", c.AtFn(fn), "extendConfig(baseConfig{matcher, newDests})", "the configuration (and ring) is rebuilt from the old destination list")
+		}
+		return out
+	}
+	isAppend := func(v ssa.Value) bool {
+		call, ok := v.(*ssa.Call)
+		if !ok {
+			return false
+		}
+		b, ok := call.Call.Value.(*ssa.Builtin)
+		return ok && b.Name() == "append"
+	}
+	nEntries := 0
+	for i := 0; i < ch.NumMethods(); i++ {
+		fn := c.P.SSA.FuncValue(ch.Method(i))
+		if fn == nil || len(fn.Blocks) == 0 {
+			continue
+		}
+		cfg := &PathCfg{
+			Inline:   func(g *ssa.Function) bool { return fnPkg(g) == routePkg && funcCanonical(g) != nNew },
+			MaxDepth: 6,
+			ClassifyV: func(in ssa.Instruction, resolve func(ssa.Value) ssa.Value) []string {
+				if isCallNamed(in, "(*"+modPath+"/destination.Destination).Update") {
+					return []string{"update"}
+				}
+				if isCallNamed(in, nNew) {
+					return []string{"ring"}
+				}
+				if _, _, ok := publishedAccess(in, atomicStore); ok {
+					// storing back the very snapshot that was loaded changes nothing
+					v := callCommon(in).Args[len(callCommon(in).Args)-1]
+					for k := 0; k < 8; k++ {
+						v = resolve(v)
+						switch x := v.(type) {
+						case *ssa.MakeInterface:
+							v = x.X
+							continue
+						case *ssa.ChangeInterface:
+							v = x.X
+							continue
+						case *ssa.TypeAssert:
+							if !isSnapshotLoad(x) {
+								v = x.X
+								continue
+							}
+						}
+						break
+					}
+					if isSnapshotLoad(v) {
+						return []string{"store:unchanged"}
+					}
+					return []string{"store"}
+				}
+				if call, ok := in.(*ssa.Call); ok {
+					if isAppend(call) && strings.Contains(call.Type().String(), "destination.Destination") {
+						return []string{"append"}
+					}
+					// a call of a configuration extender (directly or through a function value): which list does it get?
+					sig := call.Call.Signature()
+					if sig != nil && sig.Params().Len() == 1 && strings.HasSuffix(sig.Params().At(0).Type().String(), "route.baseConfig") && len(call.Call.Args) >= 1 {
+						if d := destsOf(call.Call.Args[len(call.Call.Args)-1], resolve); d != nil && isAppend(d) {
+							return []string{"extend:new"}
+						}
+						return []string{"extend:other"}
+					}
+				}
+				return nil
+			},
+		}
+		paths, trunc := EnumPaths(fn, nil, cfg)
+		nStore := 0
+		bad := ""
+		for _, pa := range paths {
+			if !pa.Has("store") {
+				continue
+			}
+			nStore++
+			si := pa.Index("store")
+			ri := -1
+			ui := -1
+			for k, e := range pa.Events {
+				if k >= si {
+					break
+				}
+				if e.Class == "ring" {
+					ri = k
+				}
+				if e.Class == "update" {
+					ui = k
+				}
+			}
+			switch {
+			case ri < 0:
+				bad = "a configuration is stored without rebuilding the ring: the ring keeps describing the old destinations"
+			case ui > ri:
+				bad = "the ring is rebuilt before the destination's address is updated: the stored ring reflects the old host/instance and routing depends on history instead of the configured destinations"
+			case pa.Has("append") && !pa.Has("extend:new"):
+				bad = "the configuration (and ring) is rebuilt from the old destination list although the path builds a new one"
+			}
+			if bad != "" {
+				bad += " (path: " + pa.String() + ")"
+				break
+			}
+		}
+		if nStore == 0 && !trunc {
+			continue
+		}
+		nEntries++
+		c.Judge(bad == "" && !trunc, "route.ConsistentHashing."+fn.Name()+" rebuilds the ring from the changed configuration", c.AtFn(fn), fmt.Sprintf("%d storing paths: ring built after the change and before the Store", nStore), bad)
+	}
+	if nEntries < 4 {
+		anchorFail("fewer than four configuration-changing methods of ConsistentHashing found (%d)", nEntries)
 	}
 }
 
@@ -199,33 +297,32 @@ func c15r3(c *Check) {
 		m := ch.Method(i)
 		declared[m.Name()] = c.P.SSA.FuncValue(m)
 	}
-	usesExt := func(fn *ssa.Function, ext string) bool {
+	// a method of baseRoute that publishes a configuration (directly or through the helpers it calls)
+	storesConfig := func(fn *ssa.Function) bool {
 		found := false
-		allInstrs(fn, func(in ssa.Instruction) {
-			if cc := callCommon(in); cc != nil {
-				for _, a := range cc.Args {
-					if f := resolveFuncValue(a); f != nil && f.Name() == ext {
-						found = true
-					}
+		for _, g := range samePkgCallees(c.P, fn) {
+			allInstrs(g, func(in ssa.Instruction) {
+				if _, _, ok := publishedAccess(in, atomicStore); ok {
+					found = true
 				}
-			}
-		})
+			})
+		}
 		return found
 	}
 	n := 0
 	for i := 0; i < base.NumMethods(); i++ {
 		m := base.Method(i)
 		fn := c.P.SSA.FuncValue(m)
-		if fn == nil || fn.Blocks == nil || !usesExt(fn, "baseConfigExtender") {
+		if fn == nil || fn.Blocks == nil || !m.Exported() || !storesConfig(fn) {
 			continue
 		}
 		n++
 		ov := declared[m.Name()]
-		okOv := ov != nil && ov.Blocks != nil && usesExt(ov, "consistentHashingConfigExtender") && !usesExt(ov, "baseConfigExtender")
-		c.Judge(okOv, "route.ConsistentHashing overrides "+m.Name(), c.AtFn(fn), "override rebuilds the ring (consistentHashingConfigExtender)", "ConsistentHashing inherits baseRoute."+m.Name()+", which stores a plain baseConfig: the next Dispatch asserts consistentHashingConfig and panics, or keeps routing with a stale ring")
+		okOv := ov != nil && ov.Blocks != nil && ov != fn
+		c.Judge(okOv, "route.ConsistentHashing overrides "+m.Name(), c.AtFn(fn), "ConsistentHashing declares its own "+m.Name()+" (that it rebuilds the ring is rule C15.R2)", "ConsistentHashing inherits baseRoute."+m.Name()+", which stores a plain baseConfig: the next Dispatch asserts consistentHashingConfig and panics, or keeps routing with a stale ring")
 	}
-	if n == 0 {
-		anchorFail("no baseRoute method using baseConfigExtender")
+	if n < 4 {
+		anchorFail("fewer than four exported baseRoute methods that store a configuration (%d)", n)
 	}
 }
 
